@@ -323,6 +323,36 @@ theorem sleep_drop_leaves_nothing (now : Nat) (w : Wheel) (slp : Sleep) (k : Key
   · simp only [mem_keys_cancel]; exact fun h => h.2 rfl
   · exact hissued
 
+/-- `update_waker k wk` touches the slot of `k` only: afterwards it holds `wk` (the old clone when
+`will_wake` said it is the same waker), every other slot is as before, and on a key that is not
+registered (completed, cancelled) it does nothing. -/
+theorem update_waker_exact (w : Wheel) (k : Key) (wk : Nat) :
+    (∀ k', k' ≠ k → lookup k' (updateWaker w k wk).entries = lookup k' w.entries) ∧
+      (k ∈ keys w.entries → lookup k (updateWaker w k wk).entries = some (some wk)) ∧
+      (k ∉ keys w.entries → updateWaker w k wk = w) := by
+  refine ⟨?_, ?_, ?_⟩
+  · intro k' hne
+    unfold updateWaker
+    split
+    · rfl
+    · split
+      · rfl
+      · exact lookup_setValue_ne _ _ _ _ hne
+    · exact lookup_setValue_ne _ _ _ _ hne
+  · intro hin
+    unfold updateWaker
+    split
+    · rename_i h
+      exact absurd hin ((lookup_none_iff k w.entries).mp h)
+    · split
+      · rename_i old h heq
+        rw [h, heq]
+      · exact lookup_setValue_self _ _ _ hin
+    · exact lookup_setValue_self _ _ _ hin
+  · intro hout
+    unfold updateWaker
+    rw [(lookup_none_iff k w.entries).mpr hout]
+
 /-! ## 6. `insert` -/
 
 /-- a deadline that has been reached is not registered: the future is ready at once -/
@@ -434,6 +464,31 @@ theorem timeout_elapsed_never_early (w w' : Wheel) (now d : Nat) (slp : Sleep) (
     · rw [insert_panic w now d hlt (by omega)] at hnew
       simp at hnew
 
+/-- **The inner future wins whenever it is not later**: let the inner future be a sleep with key
+`ka` and the limit a sleep with key `kb`, `ka.deadline ≤ kb.deadline` (equal deadlines included).
+After any operation sequence (nobody else cancelling the limit's key, no insert panicking), whenever
+the limit's sleep is found expired the inner sleep is expired too — and since `Timeout::poll` polls
+the inner future first, the result is never `Elapsed`. -/
+theorem timeout_inner_not_later (s : World) (ops : List Op) (ka kb : Key) (wk : Nat)
+    (hwf : WF s.wheel) (hnp : Out.ins .panic ∉ outs s ops)
+    (hd : ka.deadline ≤ kb.deadline) (hga : ka.gen < s.wheel.gen)
+    (hreg : kb ∈ keys s.wheel.entries) (hc : Op.cancel kb ∉ ops) :
+    (Timeout.poll (run s ops).wheel ⟨some kb⟩
+      (sleepDone (run s ops).wheel ⟨some ka⟩) wk).2 ≠ .elapsed := by
+  have hb := before_run s ops ka kb hwf hnp hd hga (fun h => absurd hreg h) hc
+  rw [Timeout.poll_result]
+  cases hin : sleepDone (run s ops).wheel ⟨some ka⟩ with
+  | true => simp
+  | false =>
+    simp only [Bool.false_eq_true, if_false]
+    cases hl : sleepDone (run s ops).wheel ⟨some kb⟩ with
+    | false => simp
+    | true =>
+      exfalso
+      simp only [sleepDone, isCompleted_iff] at hl
+      simp only [sleepDone, isCompleted_false_iff] at hin
+      exact hb hl hin
+
 /-! ## 8. `Interval` -/
 
 /-- the first tick is `start` -/
@@ -472,6 +527,24 @@ theorem interval_next_aligned (iv : Interval) (now : Nat) (hf : iv.firstTicked =
     rw [Nat.add_mul, Nat.one_mul, Nat.mul_comm]
     generalize iv.period * ((now - iv.start) / iv.period) = m at *
     omega
+
+/-- all ticks of an interval: the first is `start`, every later one `start + k * period`, `k ≥ 1` -/
+theorem interval_ticks_aligned (start period : Nat) (iv : Interval)
+    (h : intervalAt start period = some iv) (hp64 : period ≤ 2 ^ 64) :
+    (∀ now, iv.tickDeadline now = .deadline start) ∧
+      (∀ now, start ≤ now → now + period ≤ instMax →
+        ∃ k, 1 ≤ k ∧ iv.ticked.tickDeadline now = .deadline (start + k * period)) := by
+  refine ⟨fun now => interval_first_tick start period now iv h, ?_⟩
+  intro now hs hmax
+  unfold intervalAt at h
+  split at h
+  · simp at h
+  · rename_i hp
+    simp only [Option.some.injEq] at h
+    subst h
+    refine ⟨(now - start) / period + 1, Nat.le_add_left _ _, ?_⟩
+    exact tick_next (Interval.ticked ⟨false, start, period⟩) now rfl (by simp [Interval.ticked]; omega)
+      hp64 hs hmax
 
 /-- the panic of `tick` is exactly the overflow of `now + period` -/
 theorem interval_tick_panics_iff (iv : Interval) (now : Nat) (hf : iv.firstTicked = true)
